@@ -284,11 +284,15 @@ def ref_for(draw, style, timestamps, m, name="ref"):
         return {"type": "point", "name": name, "entries": [], "minT": 0.0, "maxT": 1.0, "style": style}
     vals = set()
     for t in timestamps:
-        k = draw(st.sampled_from(["none", "same", "half", "exact", "exact_neg", "over", "both", "none", "tiny"]))
+        k = draw(st.sampled_from(["none", "same", "half", "exact", "exact_neg", "over", "both", "none", "tiny", "just_over", "just_under"]))
         if k == "same":
             vals.add(t)
         elif k == "tiny" and t > 0:
             vals.add(t * (1 + 2 ** -36))  # 1.5e-11 relative: far below maxDifference, yet a different number
+        elif k == "just_over":
+            vals.add(t + m * (1 + 2 ** -32))  # 2e-10 relative beyond maxDifference: more than rounding, so it stays
+        elif k == "just_under":
+            vals.add(t + m * (1 - 2 ** -32))  # and as much inside: it moves
         elif k == "half":
             vals.add(t + m / 2)
         elif k == "exact":
